@@ -19,6 +19,9 @@ def run(tier, replay=None):
         ("lz2-3w-4u", "lzma2", 3, ["I", "I", "D", "I"], dict(), "rand"),
         ("lz2-props-reset", "lzma2", 2, ["I", "P", "I", "U", "D"], dict(), "rand"),
         ("lz2-preset", "lzma2", 2, ["I", "D", "I"], dict(extra=dict(preset=True)), "rand"),
+        ("lz2-preset-long", "lzma2", 2, ["I", "D", "I"], dict(extra=dict(preset=True, dict_size=4096, preset_len=6000)), "rand"),
+        ("lz2-short-src", "lzma2", 2, ["I", "I", "I"], dict(extra=dict(src_chunk=7)), "rand"),
+        ("lzip-short-src", "lzip", 2, ["M", "M", "M"], dict(extra=dict(src_chunk=5)), "rand"),
         ("lz2-unc-trailing", "lzma2", 2, ["I", "I", "D"], dict(extra=dict(unc=[1], trailing=9)), "rand"),
         ("lz2-text-1k", "lzma2", 2, ["I", "I", "I"], dict(extra=dict(data_class="text", unit_len=1500)), "rand"),
         ("lzip-3m", "lzip", 2, ["M", "M", "M"], dict(), "tour"),
